@@ -1293,6 +1293,13 @@ class Interp:
             return V._cmp({ast.Lt: "<", ast.LtE: "<=", ast.Gt: ">", ast.GtE: ">="}[t], a, b)
         if a is None or b is None:
             raise PyRaise(SExc(TypeError, ("'<' not supported between instances of NoneType and int",)))
+        for x, y, refl in ((a, b, False), (b, a, True)):
+            # an ordering comparison with a modelled value (ModelObj): the model answers (`py_compare(ip, st, op, other,
+            # reflected)` -> a truth value, or raises the TypeError CPython raises, e.g. a modelled str against an int)
+            if isinstance(x, ModelObj) and hasattr(x, "py_compare"):
+                r = x.py_compare(self, st, op, y, refl)
+                if r is not NotImplemented:
+                    return r
         raise Unsupported(f"ordering comparison of {type(a).__name__} and {type(b).__name__}")
 
     def is_(self, st, a, b):
